@@ -804,18 +804,73 @@ def name_return(sig, name, what):
 LABEL_RE = re.compile(r'//\s*\[([^\]]+)\]')
 
 
-def assemble(template_path, repo_root):
-    """Return dict(text, extracted[list of Extracted], log, labels{line->label}, fn_ranges)."""
-    tpl = open(template_path).read()
-    base = os.path.dirname(os.path.dirname(os.path.dirname(os.path.abspath(template_path))))
-    for _ in range(20):
+STUB_RE = re.compile(r'/\*@\s*stub\s+(\S+)\s*::\s*(\S+)\s*::\s*(.+?)\s*@\*/', re.S)
+
+
+def expand_includes(tpl, base):
+    for _ in range(50):
         m = re.search(r'/\*@\s*include\s+(\S+)\s*@\*/', tpl)
         if not m:
             break
         inc = open(os.path.join(base, m.group(1))).read()
         tpl = tpl[:m.start()] + inc + tpl[m.end():]
+    return tpl
+
+
+def render_stub(repo_root, base, unit_file, file, path, log, cache):
+    """A function whose contract is PROVED in another unit: same signature (from the repo), same
+    requires / ensures (from that unit's directive), body replaced by external_body."""
+    other = expand_includes(open(os.path.join(base, unit_file)).read(), base)
+    found = None
+    for m in DIRECTIVE_RE.finditer(other):
+        d = parse_directive(m.group(1), 0)
+        if d.file == file and d.path == path and not d.expect_fail and not d.as_name and not d.stmts:
+            found = d
+            break
+    if found is None:
+        raise LostAnchor(f'stub: no contract for {file}::{path} in {unit_file}')
+    d = found
+    fpath = os.path.join(repo_root, file)
+    if fpath not in cache:
+        src = open(fpath).read()
+        cache[fpath] = (src, rustsrc.parse_items(src))
+    src, items = cache[fpath]
+    try:
+        it = rustsrc.find_item(src, path, items)
+    except rustsrc.NotFound as e:
+        raise LostAnchor(f'{file}: {e}')
+    sig, _body = rustsrc.split_fn(src, it)
+    sig = re.sub(r'\bpub\s*\(\s*(super|crate|self|in [^)]*)\s*\)\s*', '', sig)
+    sig = re.sub(r'^\s*pub\s+', '', sig)
+    if d.elide_async:
+        sig = elide_async(sig, f'{file}::{path}', [])
+    for (tag, a, b) in d.sig_rewrites:
+        sig = apply_rewrite(sig, a, b, False, f'{file}::{path} (signature)', [], 'sig')
+    if d.ret:
+        sig = name_return(sig, d.ret, f'{file}::{path}')
+    contract = ''
+    if d.requires is not None:
+        contract += '    requires\n' + d.requires.rstrip() + '\n'
+    if d.ensures is not None:
+        contract += '    ensures\n' + d.ensures.rstrip() + '\n'
+    log.append({'rule': 'contract-proved-in-other-unit', 'in': f'{file}::{path}', 'unit': unit_file})
+    return ('// contract PROVED in ' + unit_file + ' on the real body; used here as the callee\'s contract\n'
+            '#[verifier::external_body] /* proved-elsewhere */\npub ' + sig.rstrip() + '\n' + contract + '{ unimplemented!() }\n')
+
+
+def assemble(template_path, repo_root):
+    """Return dict(text, extracted[list of Extracted], log, labels{line->label}, fn_ranges)."""
+    tpl = open(template_path).read()
+    base = os.path.dirname(os.path.dirname(os.path.dirname(os.path.abspath(template_path))))
+    tpl = expand_includes(tpl, base)
     log = []
     cache = {}
+    for _ in range(200):
+        m = STUB_RE.search(tpl)
+        if not m:
+            break
+        txt = render_stub(repo_root, base, m.group(1), m.group(2), m.group(3).strip(), log, cache)
+        tpl = tpl[:m.start()] + txt + tpl[m.end():]
     out = []
     extracted = []
     pos = 0
